@@ -16,7 +16,7 @@ def impl_stream(cfg, cases):
             out.append(('panic', b'', r.get('m', '')))
             continue
         e = r['err']
-        cls = 'ok' if e == '' else ('werr' if 'injected write' in e else ('rerr' if 'injected read' in e else ('toolong' if 'token too long' in e else 'err:' + e)))
+        cls = 'ok' if e == '' else ('werr' if 'injected write' in e else ('rerr' if 'injected read' in e else ('toolong' if (r.get('toolong') or 'too long' in e or 'exceed' in e) else 'err:' + e)))
         out.append((cls, unb64(r['out']), r.get('writes')))
     return out
 
